@@ -2,6 +2,7 @@
 package c06
 
 import (
+	"errors"
 	"fmt"
 	"testing"
 
@@ -48,6 +49,9 @@ func TestMaxRestartsEnum(t *testing.T) {
 					spec, _ = life.Normalize(spec, false)
 					st.Begin(spec)
 					f, div, err := life.RunCase(spec, false, life.CheckC06)
+					if errors.Is(err, life.ErrInconclusive) {
+						t.Fatalf("harness: budget=%d placement=%s behind=%s children=%d: %v", budget, pl, bh, kids, err)
+					}
 					if err != nil {
 						st.Fail(spec, err)
 						t.Fatalf("budget=%d placement=%s behind=%s children=%d: %v", budget, pl, bh, kids, err)
